@@ -43,6 +43,32 @@ func (ex *Exec) buildQuery(o *Obligation, modelTerms []*smt.Term) string {
 	if !o.ExpectSat {
 		asserts = append(asserts, c.Not(o.Goal))
 	}
+	// ground instantiation of universally quantified assumptions at the index terms used by the goal
+	if cands := ex.instCandidates(o); len(cands) > 0 {
+		for i, a := range asserts {
+			asserts[i] = ex.expandForall(a, cands, true, 2)
+		}
+	}
+	// definitions of recursive spec functions that are referenced
+	if len(ex.recOrder) > 0 {
+		usedF := map[string]bool{}
+		seenF := map[int]bool{}
+		for _, a := range asserts {
+			smt.FunSymbols(a, usedF, seenF)
+		}
+		added := map[string]bool{}
+		for changed := true; changed; {
+			changed = false
+			for _, name := range ex.recOrder {
+				if usedF[name] && !added[name] && ex.unfoldAllowed(name) {
+					added[name] = true
+					asserts = append(asserts, ex.recDefs[name].axiom)
+					smt.FunSymbols(ex.recDefs[name].axiom, usedF, seenF)
+					changed = true
+				}
+			}
+		}
+	}
 	// string literal facts
 	used := map[string]bool{}
 	seen := map[int]bool{}
@@ -64,11 +90,11 @@ func (ex *Exec) buildQuery(o *Obligation, modelTerms []*smt.Term) string {
 	return c.Script("", asserts, footer, modelTerms...)
 }
 
-func runSolver(sp solverSpec, script string, timeoutS int) (status, output string, secs float64) {
+func runSolverCtx(ctx context.Context, sp solverSpec, script string, timeoutS int) (status, output string, secs float64) {
 	args := sp.cmd(timeoutS)
-	ctx, cancel := context.WithTimeout(context.Background(), time.Duration(timeoutS+2)*time.Second)
+	cctx, cancel := context.WithTimeout(ctx, time.Duration(timeoutS+2)*time.Second)
 	defer cancel()
-	cmd := exec.CommandContext(ctx, args[0], args[1:]...)
+	cmd := exec.CommandContext(cctx, args[0], args[1:]...)
 	cmd.Stdin = strings.NewReader(sp.pre + script)
 	var out bytes.Buffer
 	cmd.Stdout = &out
@@ -82,7 +108,7 @@ func runSolver(sp solverSpec, script string, timeoutS int) (status, output strin
 	case "unsat", "sat", "unknown":
 		status = first
 	default:
-		if ctx.Err() != nil || strings.Contains(output, "timeout") || strings.Contains(output, "interrupted") {
+		if cctx.Err() != nil || strings.Contains(output, "timeout") || strings.Contains(output, "interrupted") {
 			status = "timeout"
 		} else {
 			status = "error"
@@ -91,26 +117,55 @@ func runSolver(sp solverSpec, script string, timeoutS int) (status, output strin
 	return
 }
 
-// Solve tries the solvers in order until one gives a definite answer.
+func runSolver(sp solverSpec, script string, timeoutS int) (status, output string, secs float64) {
+	return runSolverCtx(context.Background(), sp, script, timeoutS)
+}
+
+// Solve first gives the primary solver one second; if that is not decisive all
+// solvers in `order` are raced for the full timeout and the first definite answer wins.
 func Solve(script string, timeoutS int, order []int) *SolveResult {
 	res := &SolveResult{Status: "unknown"}
 	t0 := time.Now()
+	quick := 1
+	if timeoutS < quick {
+		quick = timeoutS
+	}
+	st, out, secs := runSolver(solvers[order[0]], script, quick)
+	res.Tried = append(res.Tried, fmt.Sprintf("%s:%s:%.2fs", solvers[order[0]].name, st, secs))
+	if st == "unsat" || st == "sat" {
+		res.Status, res.Solver, res.Output, res.Time = st, solvers[order[0]].name, out, time.Since(t0).Seconds()
+		return res
+	}
+	if st == "error" {
+		res.Output = out
+	}
+	type ans struct {
+		idx     int
+		st, out string
+		secs    float64
+	}
+	ctx, cancel := context.WithCancel(context.Background())
+	defer cancel()
+	ch := make(chan ans, len(order))
 	for _, i := range order {
-		sp := solvers[i]
-		st, out, secs := runSolver(sp, script, timeoutS)
-		res.Tried = append(res.Tried, fmt.Sprintf("%s:%s:%.2fs", sp.name, st, secs))
-		if st == "unsat" || st == "sat" {
-			res.Status = st
-			res.Solver = sp.name
-			res.Output = out
-			res.Time = time.Since(t0).Seconds()
+		go func(i int) {
+			st, out, secs := runSolverCtx(ctx, solvers[i], script, timeoutS)
+			ch <- ans{i, st, out, secs}
+		}(i)
+	}
+	for n := 0; n < len(order); n++ {
+		a := <-ch
+		res.Tried = append(res.Tried, fmt.Sprintf("%s:%s:%.2fs", solvers[a.idx].name, a.st, a.secs))
+		if a.st == "unsat" || a.st == "sat" {
+			res.Status, res.Solver, res.Output, res.Time = a.st, solvers[a.idx].name, a.out, time.Since(t0).Seconds()
+			cancel()
 			return res
 		}
-		if st == "error" && res.Output == "" {
-			res.Output = out
-		}
-		if st == "timeout" && res.Status == "unknown" {
+		if a.st == "timeout" {
 			res.Status = "timeout"
+		}
+		if a.st == "error" && res.Output == "" {
+			res.Output = a.out
 		}
 	}
 	res.Time = time.Since(t0).Seconds()
@@ -179,4 +234,104 @@ func sexprLen(s string) int {
 		return len(s)
 	}
 	return off + j
+}
+
+func (ex *Exec) unfoldAllowed(name string) bool {
+	if ex.FC == nil || ex.FC.Unfold == nil {
+		return true
+	}
+	for _, u := range ex.FC.Unfold {
+		if strings.HasPrefix(name, "rf_"+u+"_") || name == "rf_"+u {
+			return true
+		}
+	}
+	return false
+}
+
+// instCandidates returns the recorded index terms that occur in the obligation's goal or guard.
+func (ex *Exec) instCandidates(o *Obligation) []*smt.Term {
+	if len(ex.idxTerms) == 0 {
+		return nil
+	}
+	present := map[int]bool{}
+	var walk func(t *smt.Term)
+	walk = func(t *smt.Term) {
+		if present[t.ID] {
+			return
+		}
+		present[t.ID] = true
+		for _, a := range t.Args {
+			walk(a)
+		}
+	}
+	walk(o.Goal)
+	walk(o.Guard)
+	var out []*smt.Term
+	for _, t := range ex.idxOrder {
+		if present[t.ID] {
+			out = append(out, t)
+			if len(out) >= 10 {
+				break
+			}
+		}
+	}
+	return out
+}
+
+// expandForall conjoins ground instances to universally quantified subformulas in positive positions
+// (logically equivalent to the input; it only helps the solvers' instantiation).
+func (ex *Exec) expandForall(t *smt.Term, cands []*smt.Term, pos bool, depth int) *smt.Term {
+	c := ex.W.C
+	switch t.Kind {
+	case smt.KQuant:
+		if !(pos && t.Op == "forall") && !(!pos && t.Op == "exists") {
+			return t
+		}
+		if len(t.Bound) != 1 || t.Bound[0].Sort != smt.Int || depth == 0 {
+			return t
+		}
+		parts := []*smt.Term{t}
+		for _, cand := range cands {
+			inst := c.Subst(t.Args[0], map[*smt.Term]*smt.Term{t.Bound[0]: cand})
+			inst = ex.expandForall(inst, cands, pos, depth-1)
+			parts = append(parts, inst)
+		}
+		if t.Op == "forall" {
+			return c.And(parts...)
+		}
+		return c.Or(parts...)
+	case smt.KApp:
+		switch t.Op {
+		case "and", "or":
+			args := make([]*smt.Term, len(t.Args))
+			ch := false
+			for i, a := range t.Args {
+				args[i] = ex.expandForall(a, cands, pos, depth)
+				if args[i] != a {
+					ch = true
+				}
+			}
+			if !ch {
+				return t
+			}
+			if t.Op == "and" {
+				return c.And(args...)
+			}
+			return c.Or(args...)
+		case "not":
+			a := ex.expandForall(t.Args[0], cands, !pos, depth)
+			if a == t.Args[0] {
+				return t
+			}
+			return c.Not(a)
+		case "=>":
+			a := ex.expandForall(t.Args[0], cands, !pos, depth)
+			b := ex.expandForall(t.Args[1], cands, pos, depth)
+			if a == t.Args[0] && b == t.Args[1] {
+				return t
+			}
+			return c.Implies(a, b)
+		}
+	}
+	return t
 }
